@@ -121,3 +121,19 @@ Section Skip.
   (* collision-freeness of SHA-256 on one pair of pre-images *)
   Definition no_collision (a b : str) : Prop := H a = H b -> a = b.
 End Skip.
+
+(* The full statement for the skip decision: "unchanged" only for the recorded configuration, modulo
+   SHA-256 collisions on the two pairs of pre-images compared.  (False today for the output part:
+   defect D2, see proofs/HashSkipProofs.v skip_full_refuted.) *)
+Definition skip_full : Prop :=
+  forall (H : str -> str) (s0 : syscfg) (d0 : disk) (io0 oo0 : list (str * fhash)) (rec : shash) (rs : syscfg),
+    full_step_hash H s0 d0 io0 oo0 = Some (rec, rs) ->
+    forall (s : syscfg) (d : disk) (io oo : list (str * fhash)) (h : shash),
+      try_skip H rec s d io oo = Some (true, h) ->
+      forall inps outs, observed_inps H d io = Some inps -> observed_outs H d oo = Some outs ->
+      let now := with_outs (with_inps s inps) outs in
+      sys_wf rs = true -> sys_wf now = true ->
+      wf_files (sys_outs rs) = true -> wf_files (sys_outs now) = true ->
+      no_collision H (inp_preimage (site_inp_cfg rs)) (inp_preimage (site_inp_cfg now)) ->
+      no_collision H (out_preimage (sys_outs rs)) (out_preimage (sys_outs now)) ->
+      sys_equiv rs now /\ sys_out_equiv rs now.
